@@ -149,6 +149,13 @@ def _str_lit(s):
 
 IDENT = r"[A-Za-z_][A-Za-z0-9_]*"
 KEY_COMPONENT = re.compile(r"^[&*]?\s*(%s)\s*(?:\.\s*(?:to_owned|clone|to_string)\s*\(\s*\))?$" % IDENT)
+# a field of a parameter copied into the key: `p.field`, `p.field.clone()`; recorded as "p.field"
+KEY_FIELD = re.compile(r"^[&*]?\s*(%s)\s*\.\s*(%s)\s*(?:\.\s*(?:to_owned|clone|to_string)\s*\(\s*\))?$" % (IDENT, IDENT))
+
+# Shapes the extractors do not recognise.  They are NOT raised as machinery failures: they are written
+# into the regenerated tables (`*_unrecognised`), where the obligation "nothing unrecognised" breaks, so
+# that the check goes on to search for a concrete failing input with the (fallback) model.
+UNRECOGNISED = {"cache": [], "incomplete": []}
 
 
 def _key_idents(convert, where):
@@ -162,11 +169,16 @@ def _key_idents(convert, where):
         comps = [body]
     ids = []
     for c in comps:
-        m = KEY_COMPONENT.match(c.strip())
-        if not m:
-            raise core.CheckBroken("translator: %s: key component %r is not a plain copy of a parameter "
-                                   "(only `p`, `*p`, `p.to_owned()`, `p.clone()`, `p.to_string()` keep the key faithful)" % (where, c))
-        ids.append(m.group(1))
+        c = re.sub(r"\s+", " ", c.strip())
+        m = KEY_COMPONENT.match(c)
+        f = KEY_FIELD.match(c)
+        if m and not (f and f.group(2) not in ("to_owned", "clone", "to_string")):
+            ids.append(m.group(1))
+        elif f:
+            ids.append("%s.%s" % (f.group(1), f.group(2)))
+        else:
+            UNRECOGNISED["cache"].append("%s: key component `%s` is neither a copy of a parameter nor of one of its fields" % (where, c))
+            ids.append("?" + c)
     return ids
 
 
@@ -318,6 +330,13 @@ def key_types(sites):
         for c in s["key_comps"]:
             if c not in PRIMITIVE and c not in todo:
                 todo.append(c)
+        for i in s["idents"]:
+            if "." in i and not i.startswith("?"):
+                pname = i.split(".")[0]
+                if pname in s["params"]:
+                    ty = s["ptypes"][s["params"].index(pname)].lstrip("&").replace("mut ", "").strip()
+                    if ty not in PRIMITIVE and ty not in todo:
+                        todo.append(ty)
     out, seen = [], set()
     while todo:
         t = todo.pop(0)
@@ -389,6 +408,7 @@ def _cl(xs):
 
 
 def gen_cache_keys():
+    UNRECOGNISED["cache"] = []
     sites = cached_sites() + [regex_cache_site()]
     if len(sites) < 2:
         raise core.CheckBroken("translator: only %d memoisation sites found" % len(sites))
@@ -421,6 +441,9 @@ def gen_cache_keys():
     out.append("")
     out.append("(** explicit process-global state in brush-parser/src, shell/parsing.rs, completeness.rs *)")
     out.append("Definition parser_globals : list string := %s." % _cl([_cs(g) for g in globs]))
+    out.append("")
+    out.append("(** shapes at the memoisation sites that the extractor does not recognise (must be empty) *)")
+    out.append("Definition cache_unrecognised : list string := %s." % _cl([_cs(u) for u in UNRECOGNISED["cache"]]))
     return regen.write_if_changed("C15CacheKeys.v", "\n".join(out) + "\n")
 
 
@@ -529,18 +552,27 @@ def gen_tok_tables():
         raise core.CheckBroken("translator: %s: ends_with_line_continuation not found" % crel)
     ei = em.end() - 1
     ebody = re.sub(r"\s+", " ", csrc[ei:_balanced(csrc, ei, "{", "}")])
+    UNRECOGNISED["incomplete"] = []
     shape = (r"^\{ let Some\(truncated\) = input\.strip_suffix\('(\\?.)'\) else \{ return false; \}; "
-             r"if !truncated\.ends_with\('(\\?.)'\) \{ return false; \} "
+             r"if !truncated\.ends_with\('(\\?.)'\)(?P<extra>[^{]*?) \{ return false; \} "
              r"matches!\( shell\.parse_string\(truncated\), Err\(brush_parser::ParseError::Tokenizing \{ "
              r"inner: brush_parser::TokenizerError::(%s), position: _, \}\) \) \}$" % IDENT)
     sm = re.match(shape, ebody)
+    if sm and sm.group("extra").strip():
+        # an additional early exit that the model does not have: recorded, the model keeps the plain test
+        UNRECOGNISED["incomplete"].append("%s: ends_with_line_continuation returns early also when `%s`" % (crel, sm.group("extra").strip()))
     if not sm:
-        raise core.CheckBroken("translator: %s: ends_with_line_continuation has an unrecognised shape: %s" % (crel, ebody[:300]))
+        UNRECOGNISED["incomplete"].append("%s: ends_with_line_continuation has an unrecognised shape: %s" % (crel, ebody[:300]))
+
+        class _Default:
+            def group(self, k):
+                return {1: "\\n", 2: "\\\\", 4: "UnterminatedEscapeSequence"}[k]
+        sm = _Default()
 
     def chr_code(lit):
         esc = {"\\n": 10, "\\\\": 92, "\\t": 9, "\\r": 13, "\\'": 39}
         return esc[lit] if lit in esc else ord(lit)
-    suffix, last, cvar = chr_code(sm.group(1)), chr_code(sm.group(2)), sm.group(3)
+    suffix, last, cvar = chr_code(sm.group(1)), chr_code(sm.group(2)), sm.group(4)
     if cvar not in variants:
         raise core.CheckBroken("translator: continuation check names unknown variant %s" % cvar)
     # minimal backend loop: shape check (accumulate line, stop when !needs_more_input)
@@ -575,7 +607,9 @@ def gen_tok_tables():
            "Definition cont_last : N := %d%%N." % last,
            "Definition cont_variant : string := %s." % _cs(cvar), "",
            "(** execute_line: line_count = read_result.lines().count().max(k) *)",
-           "Definition line_count_floor : nat := %s." % lm.group(1)]
+           "Definition line_count_floor : nat := %s." % lm.group(1), "",
+           "(** shapes in the completeness decision that the extractor does not recognise (must be empty) *)",
+           "Definition incomplete_unrecognised : list string := %s." % _cl([_cs(u) for u in UNRECOGNISED["incomplete"]])]
     return regen.write_if_changed("C15Incomplete.v", "\n".join(out) + "\n")
 
 
